@@ -392,6 +392,53 @@ theorem step_defined_iff_phase (s : Sys) (a : Act) (h : OwnInv s) :
     · simp [hp]
     · simp [hp]
 
+/-! ### the shape the Tie obligations establish is accepted, whatever the others do
+
+`Tie.C03.ownership` / `panic_paths_ownership` say: the events of one pooled context on every path of the skeleton are
+`get`, then mentions, then one `release` (normal exit) or nothing more (panic exit without a deferred release). The
+next lemmas show that each action of such a borrow is accepted in ANY reachable state in which the borrow is in the
+corresponding phase — so a schedule built from borrows of that shape is a run (`Sys.run … = some _`) however they are
+interleaved; the hypothesis of `interleaving_exclusive` is exactly the Tie obligation, nothing more. -/
+
+theorem get_accepted (s : Sys) (b : Nat) (pick : Option Nat) (h : OwnInv s) (hp : s.phase b = 0) :
+    ∃ s', s.step ⟨b, .get pick⟩ = some s' ∧ s'.phase b = 1 ∧ ∀ x, x ≠ b → s'.phase x = s.phase x := by
+  have hd := step_defined_iff_phase s ⟨b, .get pick⟩ h
+  simp only [hp, beq_self_eq_true] at hd
+  obtain ⟨s', hs⟩ := Option.isSome_iff_exists.mp hd
+  refine ⟨s', hs, ?_, ?_⟩
+  · unfold Sys.step at hs
+    simp only [hp, bne_self_eq_false, Bool.false_eq_true, if_false, Option.some.injEq] at hs
+    subst hs; simp
+  · intro x hx
+    unfold Sys.step at hs
+    simp only [hp, bne_self_eq_false, Bool.false_eq_true, if_false, Option.some.injEq] at hs
+    subst hs; simp [hx]
+
+theorem touch_accepted (s : Sys) (b : Nat) (h : OwnInv s) (hp : s.phase b = 1) :
+    ∃ s', s.step ⟨b, .touch⟩ = some s' ∧ ∀ x, s'.phase x = s.phase x := by
+  have hd := step_defined_iff_phase s ⟨b, .touch⟩ h
+  simp only [hp, beq_self_eq_true] at hd
+  obtain ⟨s', hs⟩ := Option.isSome_iff_exists.mp hd
+  refine ⟨s', hs, ?_⟩
+  intro x
+  unfold Sys.step at hs
+  simp only [hp, bne_self_eq_false, Bool.false_eq_true, if_false] at hs
+  cases hh : holderOf s.held b with
+  | none => simp [hh] at hs
+  | some o => simp only [hh, Option.some.injEq] at hs; subst hs; rfl
+
+theorem release_accepted (s : Sys) (b : Nat) (h : OwnInv s) (hp : s.phase b = 1) :
+    ∃ s', s.step ⟨b, .release⟩ = some s' ∧ s'.phase b = 2 := by
+  have hd := step_defined_iff_phase s ⟨b, .release⟩ h
+  simp only [hp, beq_self_eq_true] at hd
+  obtain ⟨s', hs⟩ := Option.isSome_iff_exists.mp hd
+  refine ⟨s', hs, ?_⟩
+  unfold Sys.step at hs
+  simp only [hp, bne_self_eq_false, Bool.false_eq_true, if_false] at hs
+  cases hh : holderOf s.held b with
+  | none => simp [hh] at hs
+  | some o => simp only [hh, Option.some.injEq] at hs; subst hs; simp
+
 /-- **exclusive ownership under every interleaving**: for every schedule of borrows that each follow
     get · touch* · (release | drop) — in any interleaving, with any choice of pooled or new objects by sync.Pool — every
     access went to an object that the accessing borrow held alone, no object is held twice, and no held object is in
